@@ -58,6 +58,10 @@ def space(tier, seed):
                 if jt == 'LEFT JOIN' and w is not None and w[0] not in ('cmp', 'or'):
                     continue      # a b-field of an unmatched LEFT JOIN row is None: dereferencing it fails by design
                 qs.append(('join', {'kind': 'update', 'assign': al, 'where': w, 'join': {'type': jt, 'keys': [(F('a', 1), F('b', 1))]}}))
+    # the join partner is an EMPTY record (B contains []), found through NR == bNR: it is a partner all the same (the row is updated, NU counts it)
+    for al in ([(F('a', 1), ('lit', 'Z'))], [(F('a', 2), ('NU',))], [(F('a', 1), F('b', 2)), (F('a', 2), ('bNR',))]):
+        for jt in ('INNER JOIN', 'LEFT JOIN'):
+            qs.append(('join_empty_partner', {'kind': 'update', 'assign': al, 'where': None, 'join': {'type': jt, 'keys': [(('NR',), ('bNR',))]}}))
     nrows = [[k, m], [m, k], [k, None]]
     jrows = [[k], [m], [k, m], [m, k + ';' + m], []]
     Bs = [[], [[k, 'p']], [[k, 'p'], [k, 'q'], [m]], [[m, 'p', 'z'], [k]]]
@@ -180,13 +184,17 @@ def run_shard(sh):
             'plain': list(qcheck.tables_upto(sp_['rows'], maxrows)) + [qcheck.long_table(sp_['rows'], 2)],
             'named': list(qcheck.tables_upto(sp_['nrows'], maxrows + 1)) + [qcheck.long_table(sp_['nrows'], 3)],
             'join': list(qcheck.tables_upto(sp_['jrows'], maxrows)) + [qcheck.long_table(sp_['jrows'][:4], 2)]}
+    tabs['join_empty_partner'] = [T for T in qcheck.tables_upto([[sp_['names'][0] + 'v', 'w'], ['x', 'y']], 3)]
+    # a header over ragged records: the first record fits the name list, later ones are shorter / longer
+    first = [r for r in sp_['nrows'] if None not in r][0]
+    tabs['named'] += [[list(first)] + T for T in qcheck.tables_upto([[first[0]], [], [first[1], first[0], 'extra']], 2) if T]
     jscases = []
     for qi, (kind, q) in enumerate(sp_['qs'][sh['lo']:sh['hi']]):
         sp = refql.Spelling(update_set=(qi % 2 == 0))
         if qi % 5 == 4:
             sp = refql.Spelling(update_set=(qi % 2 == 0), list_sep=',      ', assign_eq='     =     ', inner_space='    ')     # runs of 4+ spaces around assignments
         text = refql.render(q, 'py', sp)
-        Blist = sp_['Bs'] if kind == 'join' else [None]
+        Blist = sp_['Bs'] if kind == 'join' else ([[[]], [[], ['q', 'p']], [['q', 'p'], []], [[], []]] if kind == 'join_empty_partner' else [None])
         # named slice: the same query text is run against both column orders of the header (a stale name -> position binding shows)
         for names in ([sp_['names'], sp_['names'][::-1]] if kind == 'named' else [None]):
           for B in Blist:
